@@ -273,7 +273,7 @@ Proof.
   unfold to_offline. destruct (k_wsem c);
     try (apply sat_bind_any; [apply tell_sat|]; intros _; apply sat_ret;
          rewrite kp_break_pending; reflexivity).
-  apply sat_ret. reflexivity.
+  apply sat_bind_any; [apply tell_sat|]. intros _. apply sat_ret. reflexivity.
 Qed.
 
 Lemma to_offline_ret_sat {A} c (r : A) (Q : client * A -> Prop) :
@@ -668,14 +668,15 @@ Qed.
 Lemma to_offline_world c w c' w' :
   to_offline c w = Some (c', w') ->
   k_pack c' = k_pack c /\
-  ((k_wsem c = WsClosed /\ c' = c /\ w' = w) \/
+  ((k_wsem c = WsClosed /\ c' = c <| k_rconn := None |> /\
+    w' = w <| w_log ::= cons (QClose (conn_of c)) |>) \/
    (k_wsem c <> WsClosed /\ w' = w <| w_log ::= cons (QClose (conn_of c)) |>)).
 Proof.
   intros H. split.
   - exact (proj2 (to_offline_sat c _ _ _ H)).
   - unfold to_offline in H. destruct (k_wsem c) eqn:S;
       try (binv H; inversion Ha; subst; rinv H; subst; right; split; [discriminate|reflexivity]).
-    rinv H. subst. left. auto.
+    binv H. inversion Ha. subst. rinv H. subst. left. auto.
 Qed.
 
 (* ------------------------------------------------------------------ *)
